@@ -225,6 +225,9 @@ func genCDense(g *vlib.G) {
 						}
 						raw := m.RawCMatrix()
 						reused := len(back) > off && &raw.Data[0] == &back[off]
+						if (state == "sized" || state == "view") && !reused {
+							t.Failf("%s: the non-empty receiver was detached from its backing storage", tag)
+						}
 						for k, x := range back {
 							if reused && k >= off && (k-off)/ld < r && (k-off)%ld < c {
 								continue
